@@ -177,6 +177,11 @@ func genC02(seed uint64, run int, tier string) Scenario {
 		payload, want, hasErr := genPayload(r, risky)
 		rep := peer.NCReply{Mode: "now", Payload: payload}
 		ref := C02Reply{Want: want, WantFail: hasErr, Risky: ver == "1.1" && strings.Contains(payload, "##")}
+		if ver == "1.0" && r.IntN(3) == 0 {
+			// many servers end every message with a line feed after the delimiter (it travels in
+			// front of the next message)
+			rep.Trailer = pick(r, "\n", "\n", "\r\n", " \n")
+		}
 		if ver == "1.1" {
 			rep.Chunks = genChunks(r, payload)
 			if faulty && r.IntN(2) == 0 {
